@@ -115,5 +115,10 @@ MUTANTS = {
         ('punch-no-bound', P, "                    0 | libc::FALLOC_FL_PUNCH_HOLE | libc::FALLOC_FL_ZERO_RANGE => {\n                        if size + offset > file_size {\n                            return Err(eperm());\n                        }\n                    }", "                    0 | libc::FALLOC_FL_PUNCH_HOLE | libc::FALLOC_FL_ZERO_RANGE => {}"),
         ('collapse-allowed', P, "                    libc::FALLOC_FL_COLLAPSE_RANGE | libc::FALLOC_FL_INSERT_RANGE => {", "                    libc::FALLOC_FL_INSERT_RANGE => {"),
         ('no-overflow-check', P, "        if offset.checked_add(size).is_none() {", "        if false {"),
+        ('open-trunc-only-readonly-refused', 'src/passthrough/sync_io.rs', "        } else if self.seal_size.load(Ordering::Relaxed) && flags & libc::O_TRUNC != 0 {", "        } else if self.seal_size.load(Ordering::Relaxed) && flags & libc::O_TRUNC != 0 && flags & libc::O_ACCMODE == libc::O_RDONLY {"),
+        ('append-checked-at-offset', 'src/passthrough/sync_io.rs', "            let offset = if flags & libc::O_APPEND as u32 != 0 {", "            let offset = if false {"),
+        ('write-checked-at-zero', 'src/passthrough/sync_io.rs', "            self.seal_size_check(Opcode::Write, st.st_size as u64, offset, size as u64, 0)?;", "            self.seal_size_check(Opcode::Write, st.st_size as u64, 0, size as u64, 0)?;"),
+        ('setattr-gate-only-without-handle', 'src/passthrough/sync_io.rs', "        if valid.contains(SetattrValid::SIZE) && self.seal_size.load(Ordering::Relaxed) {", "        if valid.contains(SetattrValid::SIZE) && handle.is_none() && self.seal_size.load(Ordering::Relaxed) {"),
+        ('fallocate-mode-not-checked', 'src/passthrough/sync_io.rs', "                length,\n                mode as i32,\n            )?;", "                length,\n                0,\n            )?;"),
     ],
 }
